@@ -37,7 +37,8 @@ OmpInit == Init /\ pend = {}
 \* iteration is handled by the caller (field `fresh`).
 RECURSIVE Norm(_, _)
 Norm(p, nest) ==
-  IF p.ph > Len(nest.phases) THEN
+  IF p.o > p.last THEN Idle            \* (an empty inner @outer loop)
+  ELSE IF p.ph > Len(nest.phases) THEN
        IF p.o < p.last THEN Norm([p EXCEPT !.o = @ + 1, !.ph = 1, !.i = 0, !.st = 1, !.sub = 0], nest)
        ELSE Idle
   ELSE IF p.i >= IT(nest) THEN Norm([p EXCEPT !.ph = @ + 1, !.i = 0, !.st = 1, !.sub = 0], nest)
@@ -108,7 +109,7 @@ OmpStmt(t) ==
        THEN MoveOn(t, Apply(s, nest, arg, p.o, p.i, S), p.sub + 1 >= s.n) /\ UNCHANGED reg
      ELSE IF s.op \in AtomicOps
        THEN LET env == Env(nest, arg, p.o, p.i, S)
-                a   == AccCell(s.cell, env) + 1
+                a   == AccCell(s, env) + 1
             IN IF p.sub % 2 = 0
                  THEN /\ reg' = [reg EXCEPT ![t] = mem.acc[a]]
                       /\ MoveOn(t, S, FALSE)
